@@ -184,7 +184,7 @@ def _rand_value(rng: random.Random):
 
 def _literal(rng: random.Random):
     # (a literal None is a value like any other: only a *randomizer* answering None means "skip this attribute")
-    return rng.choice(["lit", "n{idx}", "p{hier_idx}/{idx}", 42, 0, True, False, 1.25, "", "{idx}{idx}", None])
+    return rng.choice(["lit", "n{idx}", "p{hier_idx}/{idx}", 42, 0, True, False, 1.25, "", "{idx}{idx}", None, "S{idx:03}", "{idx!r}|{hier_idx:>7}"])
 
 
 def _attrs(rng: random.Random, names, n):
@@ -295,7 +295,7 @@ def handmade_defs():
     out.append({"relations": {"__root__": {"ta": {":count": 0, "t": "ta", "h": "{hier_idx}"}}}})  # count 0
     # attributes that are *named* like the macros (the obvious way to store the index) and like one another's templates
     out.append({"name": "macro-named", "types": {"*": {"idx": "{idx}", "prefix": "P"}, "tb": {"hier_idx": "{hier_idx}", "idx": 7}},
-                "relations": {"__root__": {"ta": {":count": 3, "t": "ta", "h": "{hier_idx}", "hier_idx": "{hier_idx}", "label": "#{idx}", "title": "Shelf {hier_idx}"}},
+                "relations": {"__root__": {"ta": {":count": 3, "t": "ta", "h": "{hier_idx}", "hier_idx": "{hier_idx}", "label": "#{idx}", "title": "Shelf {hier_idx}", "code": "S{idx:03}/{idx:>3}/{idx!r}"}},
                               "ta": {"tb": {":count": 2, "t": "tb", "h": "{hier_idx}", "label": "{idx}/{hier_idx}", "idx": {"$r": "range", "min": 100, "max": 200, "p": 1.0, "none": None}}}}})
     out.append({"name": "probs", "relations": {"__root__": {"ta": {  # every randomizer at probability 0.0 / 1.0 / 0.5
         ":count": 4, "t": "ta", "h": "{hier_idx}", "i": "{idx}",
@@ -339,7 +339,7 @@ BAD_DEFS = (
 
 # ------------------------------------------------------------------ oracle
 def _expand(s: str, idx: int, hier: str) -> str:
-    return s.replace("{hier_idx}", hier).replace("{idx}", str(idx))
+    return s.format(idx=idx, hier_idx=hier)  # str.format semantics: `idx` is the int index (format specs / conversions apply to an int), `hier_idx` the dotted str
 
 
 def _merged(desc: dict, ntype: str, rel_spec: dict) -> dict:
